@@ -97,6 +97,10 @@ type c05F struct {
 	cliIn  *io.PipeWriter
 	svrOut *io.PipeWriter
 	rec    *c05Rec
+	// filled in by the history strata of c05d.go
+	paths *c05Paths // what exists on disk (for drag histories)
+	toks  []string  // the event list for the model, when the history is model-comparable
+	trig  []byte    // the last raw chunk with a trigger that a real trz/tsz child printed
 }
 
 func c05New(o trzsz.TrzszOptions) *c05F {
@@ -1081,6 +1085,10 @@ func c05EncLine(typ string, payload string) []byte {
 type c05Hist struct {
 	name string
 	run  func(x *c05F, work string, rng *rand.Rand) string // returns "" or what went wrong in the scenario itself
+	// strata of c05d.go
+	drag  bool // runs with drag detection on; x.paths is set
+	model bool // the whole history (probes included) is also evaluated by the model (c05_run)
+	win   bool // runs in the phase with SetAffectedByWindows(true)
 }
 
 func c05WaitIdle(x *c05F, d time.Duration) bool {
@@ -1163,7 +1171,11 @@ func c05RunChild(x *c05F, bin string, args []string, deadline time.Duration) str
 		for {
 			n, err := stdout.Read(buf)
 			if n > 0 {
-				x.svrOut.Write(append([]byte(nil), buf[:n]...))
+				b := append([]byte(nil), buf[:n]...)
+				if bytes.Contains(b, []byte("::TRZSZ:TRANSFER:")) {
+					x.trig = b
+				}
+				x.svrOut.Write(b)
 			}
 			if err != nil {
 				break
@@ -1194,8 +1206,8 @@ func c05RunChild(x *c05F, bin string, args []string, deadline time.Duration) str
 
 func c05Histories() []c05Hist {
 	return []c05Hist{
-		{"none", func(x *c05F, work string, rng *rand.Rand) string { return "" }},
-		{"success-download", func(x *c05F, work string, rng *rand.Rand) string {
+		{name: "none", run: func(x *c05F, work string, rng *rand.Rand) string { return "" }},
+		{name: "success-download", run: func(x *c05F, work string, rng *rand.Rand) string {
 			src := filepath.Join(work, "src.bin")
 			os.WriteFile(src, fillBytes(rng, 20000, rng.Intn(4)), 0644)
 			dest := filepath.Join(work, "dl")
@@ -1211,7 +1223,7 @@ func c05Histories() []c05Hist {
 			}
 			return ""
 		}},
-		{"success-upload", func(x *c05F, work string, rng *rand.Rand) string {
+		{name: "success-upload", run: func(x *c05F, work string, rng *rand.Rand) string {
 			src := filepath.Join(work, "up.bin")
 			os.WriteFile(src, fillBytes(rng, 20000, rng.Intn(4)), 0644)
 			dest := filepath.Join(work, "ul")
@@ -1238,7 +1250,7 @@ func c05Histories() []c05Hist {
 			}
 			return ""
 		}},
-		{"server-fail", func(x *c05F, work string, rng *rand.Rand) string {
+		{name: "server-fail", run: func(x *c05F, work string, rng *rand.Rand) string {
 			x.f.SetDefaultDownloadPath(work)
 			if e := c05Handshake(x, 'S', "1.1.6", true); e != "" {
 				return e
@@ -1250,7 +1262,7 @@ func c05Histories() []c05Hist {
 			x.svrOut.Write(c05EncLine("fail", "server side failure"))
 			return ""
 		}},
-		{"client-fail", func(x *c05F, work string, rng *rand.Rand) string {
+		{name: "client-fail", run: func(x *c05F, work string, rng *rand.Rand) string {
 			x.f.SetDefaultDownloadPath(work)
 			if e := c05Handshake(x, 'S', "1.1.6", true); e != "" {
 				return e
@@ -1267,7 +1279,7 @@ func c05Histories() []c05Hist {
 			}
 			return ""
 		}},
-		{"client-fail-early", func(x *c05F, work string, rng *rand.Rand) string {
+		{name: "client-fail-early", run: func(x *c05F, work string, rng *rand.Rand) string {
 			x.f.SetDefaultDownloadPath(filepath.Join(work, "missing", "dir"))
 			from := x.rec.length()
 			x.svrOut.Write([]byte(fmt.Sprintf("::TRZSZ:TRANSFER:S:1.1.6:%s\r\n", c05NextID())))
@@ -1276,7 +1288,7 @@ func c05Histories() []c05Hist {
 			}
 			return ""
 		}},
-		{"stop-ctrl-c-old-server", func(x *c05F, work string, rng *rand.Rand) string {
+		{name: "stop-ctrl-c-old-server", run: func(x *c05F, work string, rng *rand.Rand) string {
 			x.f.SetDefaultDownloadPath(work)
 			if e := c05Handshake(x, 'S', "1.1.0", true); e != "" {
 				return e
@@ -1292,7 +1304,7 @@ func c05Histories() []c05Hist {
 			}
 			return ""
 		}},
-		{"stop-and-delete-api", func(x *c05F, work string, rng *rand.Rand) string {
+		{name: "stop-and-delete-api", run: func(x *c05F, work string, rng *rand.Rand) string {
 			x.f.SetDefaultDownloadPath(work)
 			if e := c05Handshake(x, 'S', "1.1.6", true); e != "" {
 				return e
@@ -1308,7 +1320,7 @@ func c05Histories() []c05Hist {
 			}
 			return ""
 		}},
-		{"stop-prompt", func(x *c05F, work string, rng *rand.Rand) string {
+		{name: "stop-prompt", run: func(x *c05F, work string, rng *rand.Rand) string {
 			x.f.SetDefaultDownloadPath(work)
 			if e := c05Handshake(x, 'S', "1.1.6", true); e != "" {
 				return e
@@ -1329,7 +1341,7 @@ func c05Histories() []c05Hist {
 			}
 			return ""
 		}},
-		{"stop-prompt-open-server-fails", func(x *c05F, work string, rng *rand.Rand) string {
+		{name: "stop-prompt-open-server-fails", run: func(x *c05F, work string, rng *rand.Rand) string {
 			// the user presses ctrl-C (the stop prompt opens) and does not answer; meanwhile the
 			// server gives up.  The session ends, the prompt is still on the screen.
 			x.f.SetDefaultDownloadPath(work)
@@ -1348,14 +1360,14 @@ func c05Histories() []c05Hist {
 			x.svrOut.Write(c05EncLine("fail", "server gave up"))
 			return ""
 		}},
-		{"refused-upload", func(x *c05F, work string, rng *rand.Rand) string {
+		{name: "refused-upload", run: func(x *c05F, work string, rng *rand.Rand) string {
 			// no files given: the chooser (zenity; here a stand-in that exits 1 = Cancel) is asked
 			return c05Handshake(x, 'R', "1.1.6", false)
 		}},
-		{"refused-download", func(x *c05F, work string, rng *rand.Rand) string {
+		{name: "refused-download", run: func(x *c05F, work string, rng *rand.Rand) string {
 			return c05Handshake(x, 'S', "1.1.6", false)
 		}},
-		{"garbage-instead-of-cfg", func(x *c05F, work string, rng *rand.Rand) string {
+		{name: "garbage-instead-of-cfg", run: func(x *c05F, work string, rng *rand.Rand) string {
 			x.f.SetDefaultDownloadPath(work)
 			if e := c05Handshake(x, 'S', "1.1.6", true); e != "" {
 				return e
@@ -1369,7 +1381,7 @@ func c05Histories() []c05Hist {
 			}
 			return ""
 		}},
-		{"garbage-crlf-then-timeout", func(x *c05F, work string, rng *rand.Rand) string {
+		{name: "garbage-crlf-then-timeout", run: func(x *c05F, work string, rng *rand.Rand) string {
 			// a line ending in CR LF is skipped as junk while the client waits for CFG: the session
 			// ends by the 20 s receive timeout
 			x.f.SetDefaultDownloadPath(work)
@@ -1407,6 +1419,8 @@ func genC05History(c *ctx) {
 		}
 	}
 	hs := c05Histories()
+	paths := c05MakePaths(work)
+	table := paths.table()
 	reps := c.pick(2, 12)
 	type job struct {
 		h    c05Hist
@@ -1415,6 +1429,9 @@ func genC05History(c *ctx) {
 		n    int
 		// results
 		scen, before, after string
+		opts                trzsz.TrzszOptions
+		args                []string // the model line (model-comparable histories)
+		result              string
 	}
 	var jobs []*job
 	for r := 0; r < reps; r++ {
@@ -1425,26 +1442,79 @@ func genC05History(c *ctx) {
 			jobs = append(jobs, &job{h: h, oi: (hi*5 + r*7 + c.rng.Intn(16)) % 16, seed: c.rng.Int63(), n: len(jobs)})
 		}
 	}
-	parallelDo(len(jobs), 16, func(i int) {
-		j := jobs[i]
+	// drag-and-drop histories (c05d.go): every stratum once per repetition; the key classes
+	// typed after a drop are sampled in the quick tier (4 of them + ctrl-C) and complete in thorough
+	var winJobs []*job
+	for r := 0; r < c.pick(1, 4); r++ {
+		if c05NoDrag {
+			break
+		}
+		dh := c05DragHistories()
+		keep := map[int]bool{}
+		for _, k := range c.rng.Perm(len(c05Keys))[:4] {
+			keep[k] = true
+		}
+		for hi, h := range dh {
+			if hi < len(c05Keys) && !c.thorough() && !keep[hi] && h.name != "drag:drop-then-ctrl-c" {
+				continue
+			}
+			jobs = append(jobs, &job{h: h, oi: 1 | (c.rng.Intn(2) << 2), seed: c.rng.Int63(), n: len(jobs)})
+		}
+	}
+	for r := 0; r < c.pick(1, 3); r++ {
+		for _, h := range c05WinHistories() {
+			winJobs = append(winJobs, &job{h: h, oi: c.rng.Intn(16) &^ 1, seed: c.rng.Int63(), n: len(jobs) + len(winJobs)})
+		}
+	}
+	runJob := func(j *job) {
 		rng := rand.New(rand.NewSource(j.seed))
 		o := c05Mask(c05Opts(j.oi))
+		j.opts = o
 		x := c05New(o)
+		x.paths = paths
 		w := filepath.Join(work, fmt.Sprint("h", j.n))
 		os.MkdirAll(w, 0755)
-		j.before = x.probe(rng, o, 12)
+		if j.h.drag {
+			time.Sleep(30 * time.Millisecond) // drag detection is switched on by a goroutine
+		}
+		if j.h.model {
+			j.before = x.probeTok(rng, o, 8)
+		} else {
+			j.before = x.probe(rng, o, 12)
+		}
 		j.scen = j.h.run(x, w, rng)
 		if !c05WaitIdle(x, 15*time.Second) {
 			j.scen += " | the filter never left the transfer state"
 		}
 		time.Sleep(150 * time.Millisecond) // late protocol lines of the handler (fail message) are not part of the probe
 		x.svrOut.Write(nil)
-		j.after = x.probe(rng, o, 24)
+		if j.h.model {
+			j.after = x.probeTok(rng, o, 20)
+			j.args = []string{c05Flags(o, false, true), "-", table, "-", hx([]byte(c05TraceOn)), hx([]byte(c05TraceOff)), strings.Join(x.toks, ",")}
+			items := x.rec.snapshot()
+			j.result = "-"
+			if len(items) > 0 {
+				j.result = strings.Join(items, ",")
+			}
+		} else if j.h.drag {
+			j.after = x.probeTok(rng, o, 20)
+		} else {
+			j.after = x.probe(rng, o, 24)
+		}
 		x.close()
-	})
+	}
+	parallelDo(len(jobs), 24, func(i int) { runJob(jobs[i]) })
+	// SetAffectedByWindows is process-wide: its histories run in a phase of their own
+	trzsz.SetAffectedByWindows(true)
+	parallelDo(len(winJobs), 16, func(i int) { runJob(winJobs[i]) })
+	trzsz.SetAffectedByWindows(false)
+	jobs = append(jobs, winJobs...)
 	for _, j := range jobs {
 		c.note(j.h.name != "none", fmt.Sprintf("history %s options=%04b seed=%d => scenario=%q before=%q after=%q", j.h.name, j.oi, j.seed, j.scen, j.before, j.after))
 		c.count("history:" + j.h.name)
+		if j.args != nil {
+			c.emit(true, "c05_run", j.result, j.args...)
+		}
 		if j.before != "" {
 			c.violate("probe-before:"+j.h.name, "a fresh wrapper did not pass a probe through", fmt.Sprintf("options=%04b seed=%d: %s", j.oi, j.seed, j.before))
 		}
@@ -1452,7 +1522,11 @@ func genC05History(c *ctx) {
 			c.violate("probe-after:"+j.h.name, "after a session that ended with '"+j.h.name+"' the wrapper is not transparent again",
 				fmt.Sprintf("options=%04b seed=%d: %s", j.oi, j.seed, j.after))
 		}
-		if j.scen != "" {
+		if strings.HasPrefix(j.scen, "REDISPLAY: ") {
+			// DIRECT ORACLE: an old trigger displayed again is output like any other
+			c.violate("redisplayed-trigger:"+j.h.name, "a trigger of a finished transfer that is displayed again is not passed through untouched (it starts a new transfer)",
+				fmt.Sprintf("options=%04b seed=%d SetAffectedByWindows(true): %s", j.oi, j.seed, strings.TrimPrefix(j.scen, "REDISPLAY: ")))
+		} else if j.scen != "" {
 			c.violate("history-scenario:"+j.h.name, "the scripted session '"+j.h.name+"' did not take its expected course", fmt.Sprintf("options=%04b seed=%d: %s", j.oi, j.seed, j.scen))
 		}
 	}
